@@ -53,7 +53,7 @@ def fill_cfg(r, base, n=None, t=None):
             c["net"] = r.choice([x for x in NETS if x not in ("mainnet", "gnosis")])
     c["fee"] = [addr(r) for _ in range(c["v"])]
     c["wd"] = [addr(r) for _ in range(c["v"])]
-    if r.random() < 0.3:    # one address for all validators is a common configuration
+    if r.random() < 0.5:    # one fee recipient for all validators (with per-validator withdrawal addresses) is a common configuration
         c["fee"] = [c["fee"][0]] * c["v"]
     c["seed"] = r.randint(1, 1 << 30)
     return c
@@ -124,7 +124,14 @@ def build_schedules(seed, groups, thorough):
             size = 60
             for a in range(0, len(tam), size):
                 c = fill_cfg(r, cfg)
-                part = [dict(st, sel=("rand" if st.get("sel") == "first" and r.random() < 0.3 else st.get("sel", ""))) for st in tam[a:a + size]]
+                # element of a list leaf: the first (as enumerated), a seeded one, or the LAST one (a later element may be
+                # treated differently from the first, e.g. relative to its predecessor)
+                def pick_sel(st):
+                    if st.get("sel") != "first" or "[]" not in st.get("leaf", ""):
+                        return st.get("sel", "")
+                    x = r.random()
+                    return "last" if x < 0.35 else ("rand" if x < 0.6 else "first")
+                part = [dict(st, sel=pick_sel(st)) for st in tam[a:a + size]]
                 fort.append([c, {"ev": "Create"}, {"ev": "Load", "node": 0}, {"ev": "Verify"}, {"ev": "Leaves"}] + part)
         else:
             others = [st for st in steps if st["ev"] != "Tamper"]
